@@ -322,7 +322,8 @@ where
         if self.time.real() >= self.end.real() {
             return Err(IVPStatus::Done);
         }
-        if (self.time + self.dt).real() >= self.end.real() {
+        let final_step = (self.time + self.dt).real() >= self.end.real();
+        if final_step {
             self.dt = self.end - self.time;
         }
 
@@ -333,7 +334,12 @@ where
         let old_state = self.state.clone();
 
         self.state += derivative * self.dt;
-        self.time += self.dt;
+        // time + (end - time) is not always end
+        if final_step {
+            self.time = self.end;
+        } else {
+            self.time += self.dt;
+        }
 
         Ok((old_time, old_state))
     }
